@@ -73,6 +73,13 @@ def run(tier, seed):
                   alphabet=['pause', 'cbraise', 'fail', 'play'], k=2 if tier == 'quick' else 3, **kw)
     mc.append(dict(paused, invariants=INV + ['C02_TaskReturns']))
     rp.append(paused)
+    # a pause / play hook that raises, then further pause / play requests: the failed request must leave nothing behind
+    pe = core_model.plan_entry
+    ppf = dict(name='C03_ppfaults', progs=C.fam(['P04', 'P05'] if tier == 'quick' else ['P03', 'P04', 'P05', 'P14']),
+               plans=[[]] + [[pe(h, o, 'fault', 'X')] for h in PP for o in (1, 2)], alphabet=['pause', 'play'] + ([] if tier == 'quick' else ['kill']),
+               k=2 if tier == 'quick' else 3, **kw)
+    mc.append(dict(ppf, invariants=INV))
+    rp.append(ppf)
     mc.append(dict(ctor, invariants=INV))
     rp.append(dict(ctor, run_kw={'comm': True}))
     n, bad = constructor_faults()
